@@ -76,6 +76,34 @@ def wf_pass(ctx, srcs, levels):
     return bad, nfun, stats
 
 
+def matrix_programs():
+    """one statement per program: every (element type x index form x operator) of array accesses, so that
+    each combination the compiler accepts is assembled (a rejected combination is a rejection)"""
+    out = {}
+    k = 0
+    for ty, decl in (('u8', 'unsigned char arr[8];'), ('s16', 'short arr[4];'), ('u16', 'unsigned short arr[4];'),
+                     ('ptr', 'char *arr[2];'), ('sc8', 'superchip unsigned char arr[8];')):
+        for ix in ('X', 'Y', '1', 'i'):
+            head = '%s unsigned char i, v; short w;\n' % decl
+            stmts = []
+            for op in ('=', '+=', '-=', '&=', '|=', '^='):
+                for rhs in ('3', 'v', 'w', 'arr[%s]' % ix):
+                    stmts.append('arr[%s] %s %s;' % (ix, op, rhs))
+            for op in ('<<=', '>>='):
+                for n in (1, 2, 7, 8):
+                    stmts.append('arr[%s] %s %d;' % (ix, op, n))
+            stmts += ['arr[%s]++;' % ix, 'arr[%s]--;' % ix, '++arr[%s];' % ix, '--arr[%s];' % ix,
+                      'v = arr[%s];' % ix, 'w = arr[%s];' % ix, 'v = arr[%s] + 1;' % ix, 'w = arr[%s] + w;' % ix, 'v = arr[%s] >> 8;' % ix,
+                      'v = arr[%s] << 1;' % ix, 'if (arr[%s]) v = 1;' % ix, 'if (arr[%s] == 3) v = 1;' % ix, 'if (arr[%s] < w) v = 1;' % ix,
+                      'X = arr[%s];' % ix, 'Y = arr[%s];' % ix, 'arr[%s] = X;' % ix, 'arr[%s] = Y;' % ix, 'v = -arr[%s];' % ix, 'v = ~arr[%s];' % ix]
+            for st in stmts:
+                if ty == 'ptr' and ('>>' in st or '<<' in st):
+                    continue
+                out['mx%d' % k] = head + 'void main() { %s }\n' % st
+                k += 1
+    return out
+
+
 def run(ctx):
     quick = ctx.tier == 'quick'
     rng = ctx.rng
@@ -98,6 +126,7 @@ def run(ctx):
         srcs['p%d' % i] = gen_program(rng, o).source()
     for i in range(60 if quick else 1500):
         srcs['n%d' % i] = nested_inline_program(rng)
+    srcs.update(matrix_programs())
     srcs.update(GOTO_PROGRAMS)
     srcs.update(CLASH_PROGRAMS)
     bad, nfun, stats = wf_pass(ctx, srcs, levels)
